@@ -158,27 +158,68 @@ Example C18_safe_entry_nonvacuous :
 Proof. vm_compute. repeat split. Qed.
 Print Assumptions C18_safe_entry_nonvacuous.
 
-(* --- version discovery after a rollback (partial) ---------------------------------------- *)
-(* With the current-manifest fix: in any state reached by a history from an installed tree in
-   which a completed snapshot is recorded, a rollback that reports success leaves current-manifest
-   at the journal's from-version, and a tarball declaring any other predecessor is then refused
-   without touching anything.
-   PARTIAL: the statement "current-manifest always names the version the installed artifacts belong
-   to" over all histories (ghost g_inst = cur as an invariant, incl. ForceRetry) is not proved; the
-   code as it is today violates it (C18_wrong_predecessor_refuted). *)
-Theorem C18_wrong_predecessor_after_rollback_partial :
-  forall c f ops w out, In (w, out) (run repaired (init_world c f) ops) ->
-  forall F w' b gi T Q F' pv wf,
-  g_base w = Some (true, b, gi) -> rollback_flow repaired F w = (w', RbOk) ->
-  t_prev T = Prev pv wf -> option_map j_from (jr w) <> Some pv ->
-  apply repaired T Q F' w' = (w', RErr) /\ option_map j_from (jr w) = Some (cur w').
+(* --- current-manifest names the installed version ------------------------------------- *)
+(* Ghost [g_inst] = the version the installed artifacts belong to: set to the tarball's version at the
+   commit step (all artifacts new), set back to the version current-manifest named when the snapshot
+   was taken at the moment a restore from that snapshot completes (all artifacts old).
+   In every state reachable by any history (applies with any fault set / death at any labelled point
+   incl. between WriteCurrentManifest and the "completed" phase write, rollbacks, operator edits,
+   obstacle removal, ForceRetry) current-manifest names that version. *)
+Theorem C18_current_manifest_names_installed_version :
+  forall c f ops, let w := exec repaired (init_world c f) ops in cur w = g_inst w.
+Proof. exact reachable_version. Qed.
+Print Assumptions C18_current_manifest_names_installed_version.
+
+(* Every operation from a reachable state that reports success is consistent in both respects:
+   the tree is all-new resp. the snapshotted tree ([m]), and current-manifest names the tarball's
+   version resp. the version it named when the restored tree was snapshotted ([step_ver]). *)
+Theorem C18_reported_success_is_consistent :
+  forall c f ops o w' r m,
+  step repaired (exec repaired (init_world c f) ops) o = (w', (r, m)) ->
+  m <> MonMixed /\ step_ver o w' r <> MonMixed.
+Proof. exact reachable_consistent. Qed.
+Print Assumptions C18_reported_success_is_consistent.
+
+(* In every reachable state a tarball whose declared predecessor is not the installed version
+   changes nothing at all. *)
+Theorem C18_wrong_predecessor_never_modifies :
+  forall c f ops T Q F pv wf, let w := exec repaired (init_world c f) ops in
+  t_prev T = Prev pv wf -> pv <> g_inst w -> apply repaired T Q F w = (w, RErr).
+Proof. exact wrong_predecessor_never_modifies. Qed.
+Print Assumptions C18_wrong_predecessor_never_modifies.
+
+(* C18_rollback_restores from a reachable state, with the version: tree and current-manifest are
+   both back to what they were before the apply. *)
+Theorem C18_rollback_restores_tree_and_version :
+  forall c f ops0 T Q F w1 r1 b gi, let w := exec repaired (init_world c f) ops0 in
+  apply repaired T Q F w = (w1, r1) -> admits T Q w = true ->
+  g_base w1 = Some (true, b, gi) ->
+  forall ops, rb_only ops ->
+  forall w' r m, In (w', (r, m)) (run repaired w1 ops) -> r = RRbOk ->
+  (forall a, In a (t_arts T) -> fs w' (a_path a) = fs w (a_path a)) /\ cur w' = cur w /\ cur w' = g_inst w.
+Proof. exact reachable_crash_then_rollback. Qed.
+Print Assumptions C18_rollback_restores_tree_and_version.
+
+(* non-vacuity of the new crash point: the process dies after WriteCurrentManifest and before the
+   "completed" phase write (all artifacts new, current-manifest 2, journal daemon_started);
+   a rollback then reports success with the old tree and current-manifest 1 *)
+Definition dies_after_commit : faults :=
+  {| f_fail := []; f_crash := Some 35; f_ha := true; f_hr := true; f_ob := []; f_rob := [] |}.
+Example C18_nonvacuous_death_after_commit :
+  exists w1 b gi w' m,
+    apply repaired (tar_ex 2 PrevNone) no_opts dies_after_commit (init_world 1 fs_ex) = (w1, RCrash) /\
+    g_base w1 = Some (true, b, gi) /\ cur w1 = 2 /\
+    option_map j_phase (jr w1) = Some PDaemonStarted /\
+    ofile_eqb (fs w1 0) (Some (Reg 20 493)) = true /\ ofile_eqb (fs w1 1) (Some (Reg 21 420)) = true /\
+    In (w', (RRbOk, m)) (run repaired w1 [OpRollback no_faults]) /\ cur w' = 1 /\
+    ofile_eqb (fs w' 0) (Some (Reg 10 2541)) = true.
 Proof.
-  exact (fun c f ops w out Hin F w' b gi T Q F' pv wf Hg Hr Hp Hne =>
-    let Hi := run_Inv repaired ops _ (Inv_init repaired c f) eq_refl w out Hin in
-    conj (wrong_predecessor_after_rollback repaired F w w' b gi T Q F' pv wf eq_refl Hi Hg Hr Hp Hne)
-         (rollback_resets_version repaired F w w' b gi eq_refl Hi Hg Hr)).
+  do 5 eexists. split; [vm_compute; reflexivity|]. split; [vm_compute; reflexivity|].
+  split; [vm_compute; reflexivity|]. split; [vm_compute; reflexivity|].
+  split; [vm_compute; reflexivity|]. split; [vm_compute; reflexivity|].
+  split; [vm_compute; left; reflexivity|]. split; vm_compute; reflexivity.
 Qed.
-Print Assumptions C18_wrong_predecessor_after_rollback_partial.
+Print Assumptions C18_nonvacuous_death_after_commit.
 
 (* non-vacuity: upgrade 1 -> 2 completes, rollback succeeds, a tarball with predecessor 2 is refused *)
 Example C18_wrong_predecessor_nonvacuous :
